@@ -964,9 +964,9 @@ MUTANTS = [
     ("global RNG reseeded again",
      ("skfem/mesh/mesh_tet_1.py",
       "        rng = np.random.RandomState(1337)\n        p = p.copy() + "
-      "1e-10 * rng.random_sample(p.shape)",
+      "1e-10 * np.abs(p).max() * rng.random_sample(p.shape)",
       "        np.random.seed(1337)\n        p = p.copy() + 1e-10 * "
-      "np.random.random(p.shape)"), "C15-R4"),
+      "np.abs(p).max() * np.random.random(p.shape)"), "C15-R4"),
     ("to_meshio updates the caller's dictionary again",
      ("skfem/io/meshio.py",
       "        cell_data = {**({} if cell_data is None else cell_data),\n"
